@@ -47,11 +47,13 @@ BOUNDED.update({
     "C05": COMPLEX,
     "C06": COMPLEX,
     "C07": ["prop:relation"],
+    "C08": ["engine:small", "init:small"],
     "C10": ["engine:small"],
     "C12": ["engine:small"],
-    "C13": ["engine:small"],
+    "C13": ["engine:small", "init:small"],
+    "C19": ["init:small"],
     "C14": ["prop:alldifferent", "prop:gcc", "prop:relation"] + SIMPLE_EXACT,
-    "C16": COMPLEX,
+    "C16": COMPLEX + ["init:small"],
     "C17": ["engine:small"],
 })
 BOUNDED_NOTE = " Bounded stand-ins (never counted as proved): the same clauses checked at run time on the real functions over exhaustively enumerated small scopes (harness/bounded.py) for the Hall-interval/graph propagators (alldifferent, gcc, scc, relation, no_sub_cycle beyond arity 4), and small random problems under every configuration against brute force for the engine-level composition."
@@ -84,7 +86,12 @@ claim("C14", "P1+P2 deductively (C05); exactness (hull, inconsistency iff empty,
       "bounded run-time contract checks (exactness not yet deductive)", level="other")
 claim("C18", "get_message contract under an explicit environment contract: every Queue.get has a timeout; an iteration that finds the queue empty while an unfinished worker is dead leaves by raising (never loops on); the reducers track completion flags exactly.",
       "contract-based deductive verification of a safety reformulation under an environment contract", level="other")
-for _p in ["C08", "C20"]:
+claim("C08", "Shrink-only and frame clauses of BC and shaving (postconditions), exact set semantics of the propagation queue (add_propagators, pop_propagator), "
+      "declared wake-up masks contain the needed events (get_triggers_X contracts for all 21 propagators), event masks announced by the value heuristics and recorded for backtracking cover every moved bound (C09 clauses), "
+      "BC queues the watchers of every bound it moves and re-filters a propagator whose aliased views were intersected. The fixpoint itself (re-executing any enabled constraint neither fails nor prunes) and the trigger clause of Problem.init are "
+      "checked by bounded suites (fixpoint monitor after every propagation pass of the real solver).",
+      "contract-based deductive verification + bounded fixpoint monitor", level="other")
+for _p in ["C20"]:
     NOT_APPLICABLE[_p] = "check under construction in this build (contracts not yet registered); see DESIGN.md section 4"
 claim("C05", "Generic propagator contract clauses P1 (contraction) and P2 (every supported tuple kept; inconsistency only when no tuple) as postconditions of each compute_domains_X, "
       "discharged by z3 from VCs generated from the real source: unbounded-arity proofs (loop invariants) for the linear and min/max/and/dummy propagators, "
